@@ -88,6 +88,7 @@ F_ODD = "address-relocations-reject-unaligned-symbols"
 F_THUMBJ = "thumb-wide-branch-j-bits-not-encoded"
 F_MIPSREGION = "mips-abs26-ignores-region"
 F_XTRANGE = "xtensa-range-assertions-wrong"
+F_SSE = "x86-sse-label-relocation-offset"
 
 
 def EXHAUSTIVE(tier):
@@ -229,8 +230,8 @@ def rd_x86_mem(ctx):
 
 
 def rd_m68k_pc(ctx):
-    m = _M68PC.search(ctx.text)
-    return None if not m else ctx.F + int(m.group(1))
+    m = _M68PC.search(ctx.text)       # llvm prints the 16-bit displacement unsigned; the CPU sign-extends it
+    return None if not m else ctx.F + sext(int(m.group(1)), 16)
 
 
 def rd_mips_j(ctx):
@@ -609,7 +610,7 @@ class Carriers:
     """Relocation-carrying instruction templates of one ISA: {type: [template]} with
     template = {"class": key, "assignment": a (labels = placeholders), "nlabels": n}"""
 
-    def __init__(self, isa, r):
+    def __init__(self, isa, r, avoid=()):
         from vlib import isaenum, oprange
 
         self.isa = isa
@@ -623,6 +624,8 @@ class Carriers:
             cls_list += [("mb:" + c.__name__, c) for c in microblaze_carriers()]
         self.classes = dict(cls_list)
         for key, cls in cls_list:
+            if F_SSE in avoid and cls.__module__.endswith("sse2_instructions"):
+                continue
             for attempt in range(10):
                 try:
                     ci = _CI(key, cls)
@@ -725,6 +728,8 @@ def gen_case(r, isa, car, avoid, idx):
     else:
         C = r.choice([1 << 28, (1 << 28) + (1 << 27), 1 << 29, (1 << 29) + (1 << 28), 0x30000000]) \
             + 16 * r.randrange(0, 4096)
+    if isa == "mips" and F_MIPSREGION in avoid:
+        C = r.choice([1 << 20, 1 << 24, 1 << 26, (1 << 27) + (1 << 26), 0x4000]) + 16 * r.randrange(0, 4096)
     code_align = r.choice([4, 4, 8, 16, 64]) if ialign >= 1 else 4
     C = _al(C, 64)
     nobj = r.choice([1, 1, 2, 2, 3])
@@ -839,6 +844,7 @@ def gen_case(r, isa, car, avoid, idx):
                  and any(TYPES[isa][x["type"]].kind != "part" for x in p["relocs"])]
         bad_site = r.choice(cands) if cands else None
     symdefs = {}
+    made_bad = []
 
     def define_at(name, S, A_site_obj):
         """make symbol `name` have value S; returns the mode used or None"""
@@ -847,11 +853,12 @@ def gen_case(r, isa, car, avoid, idx):
         if S < 0:
             return None
         if mode == "sec":
-            size = r.choice([0, 2, 4, 8, 16, 32])
-            al = r.choice([1, 1, 2, 4])
-            o = r.choice([0, 0, size, r.randrange(size + 1)])
+            al = r.choice([1, 1, 2, 4, 8])
+            eff = max(4, al)           # an output section is at least 4-aligned (Section.alignment default)
+            o = S % eff + eff * r.choice([0, 0, 0, 1, 3])
+            size = o + r.choice([0, 0, 2, 4, 8, 16])
             L = S - o
-            if L < 0 or L % al or not free(L - 64, L + size + 64):
+            if L < 0 or L % eff or not free(L - 64, L + size + 64):
                 mode = "abs"
             else:
                 ti = len(tsections)
@@ -861,8 +868,6 @@ def gen_case(r, isa, car, avoid, idx):
                                              "data": bytes(r.randrange(256) for _ in range(size)).hex()})
                 tsections.append(sname)
                 binding = "local" if (oi == A_site_obj and r.random() < 0.5) else "global"
-                if binding == "local" and oi != A_site_obj:
-                    binding = "global"
                 add_symbol(oi, name, binding, o, sname)
                 memories.append({"name": "m_%s" % sname, "location": L, "size": size + r.choice([0, 0, 8]),
                                  "inputs": [["section", sname]]})
@@ -903,16 +908,30 @@ def gen_case(r, isa, car, avoid, idx):
             if emergent:
                 # symbol inside a code section (own or another object's), at an instruction boundary
                 oi = r.choice(code_objs)
-                pos = _al(r.randrange(len(chunks[oi]) + 1), max(ialign, ty.gstep if ty.gstep <= 4 else 1))
-                pos = min(pos, _al(len(chunks[oi]), max(ialign, 1)))
-                binding = "local" if (oi == p["obj"] and r.random() < 0.6) else "global"
-                add_symbol(oi, name, binding, pos, "code")
-                symdefs[name] = {"mode": "code", "obj": oi, "value": pos, "binding": binding}
-                x["vclass"] = "emergent"
-                continue
+                g = max(ialign, ty.gstep if ty.gstep <= 4 else 1)
+                pos = _al(r.randrange(len(chunks[oi]) + 1), g)
+                if oi == p["obj"] and r.random() < 0.6:      # close to the site
+                    pos = max(0, min(_al(len(chunks[oi]), g), _al(p["offset"] + r.randrange(-200, 200), g)))
+                S = C + moff[oi] + pos
+                drop = False
+                if x["type"] in RELAXABLE and -2048 - 64 <= S - I <= 2047 + 64:
+                    drop = True
+                elif not allowed(isa, x["type"], ty, S, A, I, F, avoid):
+                    drop = True
+                elif (isa, x["type"]) in (("arm", "ldr_imm12"), ("arm", "adr_imm12")) and \
+                        (S % 4 or not -4095 <= ty.value(S, A, I, F) <= 4095):
+                    drop = True
+                elif not ty.representable(S, A, I, F) and r.random() < 0.9:
+                    drop = True
+                if not drop:
+                    binding = "local" if (oi == p["obj"] and r.random() < 0.6) else "global"
+                    add_symbol(oi, name, binding, pos, "code")
+                    symdefs[name] = {"mode": "code", "obj": oi, "value": pos, "binding": binding}
+                    x["vclass"] = "emergent"
+                    continue
             v = None
             for _ in range(40):
-                v, vclass = pick_value(r, ty, want_bad, avoid, isa, x["type"])
+                v, vclass = (0, "part") if ty.kind == "part" else pick_value(r, ty, want_bad, avoid, isa, x["type"])
                 if ty.kind == "part":
                     S = r.choice([r.randrange(0, space), r.randrange(0, space), 0x7FF, 0x800, 0x801, 0xFFF, 0x1000,
                                   0x7FFFF800 % space, 0x7FFFF7FF % space, I + r.randrange(-4096, 4096),
@@ -933,6 +952,8 @@ def gen_case(r, isa, car, avoid, idx):
                     continue      # narrowing (3)
                 if not allowed(isa, x["type"], ty, S, A, I, F, avoid):
                     continue
+                if ty.kind != "part" and ty.representable(S, A, I, F) == bool(want_bad):
+                    continue      # the drawn value must be on the intended side of the type's range
                 break
             else:
                 v = None
@@ -944,8 +965,9 @@ def gen_case(r, isa, car, avoid, idx):
                                           or not allowed(isa, x["type"], ty, S, A, I, F, avoid)):
                     x["drop"] = True
             x["vclass"] = vclass
-            if want_bad:
+            if want_bad and vclass.startswith("bad"):
                 p["bad"] = True
+                made_bad.append(pi)
             mode = define_at(name, S, p["obj"])
             if mode is None:
                 extra[name] = max(S, 0)
@@ -956,6 +978,8 @@ def gen_case(r, isa, car, avoid, idx):
                                         "data": bytes(chunks[oi]).hex()})
     for p in placed:
         for x in p["relocs"]:
+            if x.get("drop"):
+                continue
             ob = objs[p["obj"]]
             name = x["symbol"]
             sid = None
@@ -974,7 +998,7 @@ def gen_case(r, isa, car, avoid, idx):
     partial = nobj >= 2 and r.random() < 0.25
     return {"arch": isa, "index": idx, "objects": objs, "layout": {"memories": memories, "entry": None},
             "extra_symbols": extra, "partial": partial, "sites": placed, "moff": {str(k): v for k, v in moff.items()},
-            "code_objs": code_objs, "C": C, "symdefs": symdefs, "reject": bool(reject and bad_site is not None)}
+            "code_objs": code_objs, "C": C, "symdefs": symdefs, "reject": bool(made_bad)}
 
 
 def allowed(isa, typ, ty, S, A, I, F, avoid):
@@ -996,7 +1020,7 @@ def allowed(isa, typ, ty, S, A, I, F, avoid):
         lim = (1 << 22) if typ == "bl_imm11" else (1 << 18)
         if not (-lim <= v < lim):
             return False
-    if F_MIPSREGION in avoid and key == ("mips", "abs26") and (S + A) >> 28 != (I + 4) >> 28:
+    if F_MIPSREGION in avoid and key == ("mips", "abs26") and ((S + A) >> 28 or (I + 4) >> 28):
         return False
     if F_EDGE in avoid and rep and key in EDGE_EXCLUDED and v in EDGE_EXCLUDED[key]:
         return False
@@ -1009,10 +1033,13 @@ def allowed(isa, typ, ty, S, A, I, F, avoid):
 
 # representable values that the range assertions of ppci leave out
 EDGE_EXCLUDED = {
-    ("msp430", "rel10"): (-1024, 1020, 1022),
+    ("msp430", "rel10"): (-1024, 1022),
     ("avr", "12bit"): (-4096,),
     ("avr", "7bit"): (-128,),
-    ("arm:thumb", "rel8"): (),
+    ("arm:thumb", "rel8"): (254,),
+    ("arm:thumb", "wrap_new11"): (2046,),
+    ("arm:thumb", "bl_imm11"): (16777214,),
+    ("arm:thumb", "b_imm11_imm6"): (1048574,),
     ("xtensa", "imm8"): (127,),
 }
 # (isa, type) -> alignment of the symbol value the relocation type insists on although the field can hold any address
@@ -1021,7 +1048,9 @@ ODD_REJECTED = {("riscv", "abs32_imm20"): 2, ("riscv", "abs32_imm12"): 2, ("risc
                 ("riscv:rvc", "rel_imm20"): 2, ("riscv:rvc", "rel_imm12"): 2, ("msp430", "abs16"): 2,
                 ("arm", "ldr_imm12"): 4, ("arm", "adr_imm12"): 4}
 ODD_SITE = set()
-XT_WRONG = {}
+# xtensa: J rejects the four lowest offsets; L32R (always backwards) accepts forward offsets and rejects the far half
+XT_WRONG = {("xtensa", "call18"): lambda v: -131072 <= v <= -131069,
+            ("xtensa", "ri16"): lambda v: v < -131072 or 0 <= v <= 4 * 65535}
 
 
 # ---------------------------------------------------------------------------
@@ -1112,7 +1141,7 @@ def judge_link(case, status, res, mon):
         exc = res
         from ppci.common import CompilerError
 
-        ob["links"]["rejected" if case["reject"] else "raised_unexpected"] += 1
+        ob["links"]["rejected" if case["reject"] else "rejected_emergent"] += 1
         ename = type(exc).__name__
         ob["exceptions"][ename] = ob["exceptions"].get(ename, 0) + 1
         # judge with intended addresses: section bases = memory locations
@@ -1200,7 +1229,7 @@ class Mon:
         self.viol = []
         self.samples = []
         self.hashes = set()
-        self.observed = {"links": {"ok": 0, "rejected": 0, "raised_unexpected": 0, "through_partial_link": 0},
+        self.observed = {"links": {"ok": 0, "rejected": 0, "rejected_emergent": 0, "through_partial_link": 0},
                          "exceptions": {}, "types": {}, "oracle": {"refdis": 0, "manual": 0, "direct": 0},
                          "near_edge": 0, "pairs_recombined": 0, "unreadable": {}, "modes": {}, "vclass": {},
                          "isas": {spec["arch"]: 1}, "same_shape_checked": 0, "carrier_types": {},
@@ -1228,7 +1257,7 @@ def run_shard(spec):
     mon = Mon(spec)
     if isa in STRONG and not refdis.available(isa):
         return {"evaluations": 0, "inconclusive": ["reference decoder for %s missing" % isa]}
-    car = Carriers(isa, rng(spec["seed"], PROPERTY, "carriers/%s" % isa))
+    car = Carriers(isa, rng(spec["seed"], PROPERTY, "carriers/%s" % isa), mon.avoid)
     types = TYPES[isa]
     for t, lst in sorted(car.by_type.items()):
         mon.observed["carrier_types"]["%s/%s" % (isa, t)] = len(lst)
@@ -1273,6 +1302,8 @@ def judge_sites(isa, pending, mon):
         seen = {}
         for q in pending:
             p = q["case"]["sites"][q["site"]]
+            if types[p["relocs"][q["rel"]]["type"]].oracle != "refdis":
+                continue
             for tag, b in (("l", q["raw"]), ("u", bytes.fromhex(p["unlinked"]))):
                 k = (q["case"]["index"], q["site"], tag)
                 if k in seen:
@@ -1305,35 +1336,40 @@ def judge_sites(isa, pending, mon):
             if d is None or d.status in ("missing", "tool-crash"):
                 mon.disc("reference-tool-failed")
                 continue
-            if du is not None and du.status != "ok":
+            ln = pick_line(d, x["foff"])
+            lu = pick_line(du, x["foff"]) if du is not None else None
+            if lu is None or refdis.is_invalid(lu[2]) or not tiles(du):
                 # the reference cannot read the *unlinked* instruction either: carrier outside the reference's reach
                 u = mon.observed["unreadable"]
                 u["carrier:" + p["class"]] = u.get("carrier:" + p["class"], 0) + 1
                 continue
-            if d.status != "ok":
+            if ln is None or refdis.is_invalid(ln[2]) or ln[1] != lu[1] or ln[0] - d.offset != lu[0] - du.offset:
                 mon.evals += 1
-                mon.violation("%s %s: after linking the reference reads the site as %s (%s), before linking as %r" % (
-                    isa, x["type"], d.status, d.text, du.text if du else None), case,
-                    {"site": q["site"], "linked": q["raw"].hex()})
+                mon.violation("%s %s: after linking the reference reads the site as %r, before linking as %r" % (
+                    isa, x["type"], ln, lu), case, {"site": q["site"], "linked": q["raw"].hex()})
                 continue
-            text = refdis.strip_comment(isa, d.text).strip().lower()
-            nr = refdis.norm_ref(isa, d.text)
+            rel0 = ln[0] - d.offset
+            ctx.I, ctx.size, ctx.raw, ctx.foff = I + rel0, ln[1], q["raw"][rel0:], x["foff"] - rel0
+            text = refdis.strip_comment(isa, ln[2]).strip().lower()
+            nr = refdis.norm_ref(isa, ln[2])
             ctx.text = text
             ctx.atoms = nr[1] if nr else []
-            ctx.caddr = cfg["vma"] + d.offset
+            ctx.caddr = cfg["vma"] + ln[0]
             # the relocation may only touch its field: same mnemonic and registers as before linking
-            if du is not None and q["rel"] == 0:
-                nu = refdis.norm_ref(isa, du.text)
+            if lu is not None:
+                nu = refdis.norm_ref(isa, lu[2])
                 if nr and nu:
                     mon.observed["same_shape_checked"] += 1
                     regs_l = [a for a in nr[1] if not isinstance(a, int)]
                     regs_u = [a for a in nu[1] if not isinstance(a, int)]
-                    same_m = nr[0] == nu[0] or {nr[0], nu[0]} <= {"add", "sub", "adr"}
-                    if not same_m or regs_l != regs_u or len(nr[1]) != len(nu[1]):
-                        if not ({nr[0], nu[0]} <= {"add", "sub", "adr"}):
+                    # ARM ADR is ADD/SUB rd, pc, #imm: the relocation selects the operation (template: AND)
+                    adr = x["type"] == "adr_imm12" and {nr[0], nu[0]} <= {"add", "sub", "adr", "and"}
+                    same_m = nr[0] == nu[0] or adr
+                    if not same_m or regs_l != regs_u:
+                        if not adr:
                             mon.evals += 1
                             mon.violation("%s %s: linking changed the instruction from %r to %r" % (
-                                isa, x["type"], du.text, d.text), case, {"site": q["site"]})
+                                isa, x["type"], lu[2], ln[2]), case, {"site": q["site"]})
                             continue
         try:
             got = ty.read(ctx)
@@ -1372,7 +1408,7 @@ def judge_sites(isa, pending, mon):
             mon.observed["near_edge"] += 1
         if (S + A) != 0 and S != I:
             mon.hashes.add(h([isa, x["type"], p["class"], v, mode]))
-        reads.setdefault((case["index"], p["plan"]), []).append((x["type"], got, I, F, S + A, p["pair_of"]))
+        reads.setdefault((case["index"], p["plan"]), []).append((x["type"], got, ctx.I, F, S + A, p["pair_of"]))
         if len(mon.samples) < 2 and near and ty.oracle != "direct":
             mon.samples.append({"arch": isa, "type": x["type"], "class": p["class"], "site_address": I, "symbol": S,
                                 "addend": A, "value": v, "linked_bytes": q["raw"].hex(),
@@ -1383,6 +1419,26 @@ def judge_sites(isa, pending, mon):
             continue
         byt = {t: (g, I, F, D) for t, g, I, F, D, _ in lst}
         mon_pair(isa, byt, mon, key)
+
+
+def tiles(d):
+    """the decoded lines partition the chunk exactly (the reference sees the item as whole instructions)"""
+    pos = d.offset
+    for off, nb, text in d.lines:
+        if off != pos:
+            return False
+        pos += nb
+    return pos == d.offset + d.size
+
+
+def pick_line(d, foff):
+    """the decoded line (offset, nbytes, text) of Decoded d that covers byte `foff` of the chunk"""
+    if d is None:
+        return None
+    for off, nb, text in d.lines:
+        if off - d.offset <= foff < off - d.offset + nb:
+            return (off, nb, text)
+    return None
 
 
 def mon_pair(isa, byt, mon, key):
